@@ -16,7 +16,9 @@ BOOK = "/user/contacts/addressbook"
 NS = "urn:ietf:params:xml:ns:carddav"
 q = lambda s: urllib.parse.quote(s, safe="")
 
-FNS = ["Alice Example", "bob", "BOB", "Zoë Faßbinder", "张三", "Émile 😀", "alice", "Alice"]
+FNS = ["Alice Example", "bob", "BOB", "Zoë Faßbinder", "张三", "Émile 😀", "alice", "Alice",
+       "Zoe\u0308 Mu\u0308ller",                      # decomposed (NFD), as macOS/iOS write names
+       "Ann Lee", "Annabel Leeds", "Joann Aleem"]    # near-collisions that differ by a blank
 EMAILS = ["alice@example.com", "BOB@EXAMPLE.COM", "zoe@ex.org", "z@b.c"]
 TELS = [("+1 555 0100", {"TYPE": ["home", "voice"]}), ("+49 30 12345", {"TYPE": ["work"]}),
         ("0800", {})]
@@ -59,7 +61,9 @@ def library_structure(data):
 COLLS = ["i;ascii-casemap", "i;octet", "i;unicode-casemap", None]
 MTYPES = ["equals", "contains", "starts-with", "ends-with", None]
 TEXTS = ["alice", "Alice", "ALICE", "bob", "example", "EXAMPLE.COM", "Zoë", "zoë", "ß", "张", "😀", "", "+1", "0100",
-         "note", "é", "home", "work", "x"]
+         "note", "é", "home", "work", "x",
+         "Zoe\u0308", "Mu\u0308ller", "Müller", "e\u0308",   # NFD and NFC spellings are different strings
+         "Ann ", " Lee", " ", "alice ", " bob"]          # blanks are part of the text
 
 
 def gen_tm(rng, texts=TEXTS):
